@@ -25,6 +25,7 @@ func propC06() *Property {
 			{ID: "C06.K4", Title: "regexp match indexing within capture structure", Floor: 19, Run: c06K4},
 			{ID: "C06.K5", Title: "explicit panics are unreachable or discharged", Floor: 26, Run: c06K5},
 			{ID: "C06.K7", Title: "every recursion has a checked measure", Floor: 3, Run: c06K7},
+			{ID: "C06.K9", Title: "elements of a split text are taken only where the split is known to be long enough", Floor: 0, Run: splitIndexing},
 			{ID: "C06.K8", Title: "URLs (identifiers can be absent) are dereferenced only where provably non-nil", Floor: 10, Run: c06K8},
 		},
 	}
@@ -1207,4 +1208,100 @@ func c06K8(c *Ctx) {
 				"a *url.URL that may be nil (identifiers can be absent) is dereferenced without a dominating nil test: a document without a usable id crashes the program")
 		})
 	}
+}
+
+// splitIndexing (C06.K9 and C05.R8): strings.Fields and its relatives return as
+// many pieces as the text happens to have — none at all for a text of blanks.
+// Every index or slice bound applied to such a result must be provably within
+// its length at that point (a dominating len test); Split / SplitN / SplitAfter
+// with a non-empty separator always return at least one piece, so index 0 of
+// those is fine. (Indexing of regexp matches is K4.)
+func splitIndexing(c *Ctx) {
+	P := c.P
+	n := 0
+	splitKind := func(v ssa.Value) string {
+		call, ok := unwrapLoad(v).(*ssa.Call)
+		if !ok {
+			return ""
+		}
+		f := calleeObj(&call.Call)
+		if f == nil || f.Pkg() == nil || (f.Pkg().Path() != "strings" && f.Pkg().Path() != "bytes") {
+			return ""
+		}
+		switch f.Name() {
+		case "Fields", "FieldsFunc":
+			return "fields"
+		case "Split", "SplitAfter", "SplitN", "SplitAfterN":
+			if len(call.Call.Args) >= 2 {
+				if s, isC := constString(call.Call.Args[1]); isC && s != "" {
+					if f.Name() == "SplitN" || f.Name() == "SplitAfterN" {
+						if k, isK := constInt(call.Call.Args[2]); !isK || k == 0 {
+							return "fields"
+						}
+					}
+					return "split"
+				}
+			}
+			return "fields"
+		}
+		return ""
+	}
+	for _, fn := range P.Funcs {
+		fname := FuncName(fn)
+		eachInstr(fn, func(b *ssa.BasicBlock, _ int, in ssa.Instruction) {
+			var base, idx ssa.Value
+			what := ""
+			switch x := in.(type) {
+			case *ssa.IndexAddr:
+				base, idx, what = x.X, x.Index, "index"
+			case *ssa.Index:
+				base, idx, what = x.X, x.Index, "index"
+			case *ssa.Slice:
+				// pieces[a:b]: both bounds
+				if k := splitKind(x.X); k == "fields" {
+					n++
+					okS := true
+					for _, bd := range []ssa.Value{x.Low, x.High} {
+						if bd == nil {
+							continue
+						}
+						lo, up := indexInBounds(bd, unwrapLoad(x.X), b)
+						// a slice bound may equal the length
+						if !lo {
+							okS = false
+						}
+						if !up {
+							g := lin(bd)
+							l := newLin()
+							l.coef["len("+normSym(unwrapLoad(x.X))+")"] = 1
+							if !proveNonNeg(l.add(g, -1), ineqs(factsOf(fn).At(b)), unsignedSymbolsOf(bd)) {
+								okS = false
+							}
+						}
+					}
+					c.check(okS, fname+"/split-slice", P.InstrPos(in), fname, "slice bounds within the number of pieces", "a split text is sliced at a bound that is not known to be within the number of pieces it has: a text with fewer pieces (blanks only, say) panics")
+				}
+				return
+			default:
+				return
+			}
+			k := splitKind(base)
+			if k == "" {
+				return
+			}
+			if _, isC := constInt(idx); !isC && k == "split" {
+				return // a computed position in a Split result: relational, K3 / C16.R1 / unclaimed sites
+			}
+			n++
+			if kk, isC := constInt(idx); isC && kk == 0 && k == "split" {
+				c.ok(fname+"/split-"+what, P.InstrPos(in), fname, "piece 0 of a Split with a non-empty separator always exists")
+				return
+			}
+			lo, up := indexInBounds(idx, unwrapLoad(base), b)
+			c.check(lo && up, fname+"/split-"+what, P.InstrPos(in), fname, "the piece exists (dominating length test)",
+				"a piece of a split text is taken without its existence being established: strings.Fields of a text of blanks has no pieces, and the access panics")
+		})
+	}
+	c.info("split_accesses", n)
+	c.ok("module/split-accesses", "", "module", fmt.Sprintf("%d accesses to pieces of split texts in the module, each checked", n))
 }
